@@ -122,6 +122,9 @@ def check(ctx):
     ctx.inst('R3', fcb, 'hit-requires-truthy-result', (cvar in facts and facts[cvar].pol is True) or truthy_or_validated(gf, adopt[0], cvar, fcb.cls), 'a falsy cache result (None / unparsable / empty) must not be adopted')
     cached_table_adoption_rule(ctx, 'R3')
     from .c03 import fetcher_unsubscribe_rules
+    from .c07 import caller_rules, removal_predicate_rules
+    caller_rules(ctx, 'R2')
+    removal_predicate_rules(ctx, 'R2')      # the finished fetcher's packet callback (a bound method) is really removed: == not `is` (shared with C07.R4)
     fetcher_unsubscribe_rules(ctx, 'R2')      # what is stored under a checksum was downloaded in ONE session: a fetcher aborted by close / link loss does not go on in the next (shared with C03.R9)
     reqs = gf.find(lambda n: method_call(n, '_request_toc_element'))
     ctx.inst('R3', fcb, 'hit-requests-nothing', all(('e', he.id) not in gf.dom()[('n', n.id)] for n, _ in reqs), 'a cache hit must not request elements')
@@ -167,6 +170,21 @@ def check(ctx):
             elif d in WRITE_CALLS:
                 src = path_source(f, c.args[0])
                 ctx.inst('R6', f, 'write-call:' + d, src == 'rw', '%s(%s) must target rw_cache; path derives from %s' % (d, norm(c.args[0]), src), line=c.lineno)
+    # the two directories keep their roles on the way from the factory to the cache: ro stays ro, rw stays rw
+    SWM = 'cflib/crazyflie/swarm.py'
+    fac = m.cls(SWM, 'CachedCfFactory')
+    fin, fco = fac.method('__init__'), fac.method('construct')
+    fst = {norm(s_.targets[0]): norm(s_.value) for s_ in walk_own(fin.node) if isinstance(s_, ast.Assign)}
+    mk_ = [c for c in walk_own(fco.node) if isinstance(c, ast.Call) and dotted(c.func) == 'Crazyflie']
+    kw_ = {k.arg: norm(k.value) for k in mk_[0].keywords} if len(mk_) == 1 else {}
+    ctx.inst('R6', fin, 'factory-keeps-cache-roles', fst.get('self.ro_cache') == 'ro_cache' and fst.get('self.rw_cache') == 'rw_cache' and
+             kw_.get('ro_cache') == 'self.ro_cache' and kw_.get('rw_cache') == 'self.rw_cache',
+             'CachedCfFactory hands ro_cache on as ro_cache and rw_cache as rw_cache (a read-only directory used as the writable one gets written); stores %s, passes %s' % (fst, kw_))
+    cfi = m.func('cflib/crazyflie/__init__.py', 'Crazyflie.__init__')
+    mk_ = [c for c in walk_own(cfi.node) if isinstance(c, ast.Call) and dotted(c.func) == 'TocCache']
+    kw_ = {k.arg: norm(k.value) for k in mk_[0].keywords} if len(mk_) == 1 else {}
+    ctx.inst('R6', cfi, 'crazyflie-keeps-cache-roles', kw_ == {'ro_cache': 'ro_cache', 'rw_cache': 'rw_cache'} or (len(mk_) == 1 and [norm(a_) for a_ in mk_[0].args] == ['ro_cache', 'rw_cache']),
+             'Crazyflie hands its ro_cache / rw_cache arguments to TocCache under the same roles; passes %s' % kw_)
     init = tc.method('__init__')
     st = [s for s in walk_own(init.node) if isinstance(s, ast.Assign) and norm(s.targets[0]) == 'self._rw_cache']
     ctx.inst('R6', init, 'rw-attr', len(st) == 1 and norm(st[0].value) == 'rw_cache', 'self._rw_cache is the rw_cache argument')
